@@ -253,3 +253,21 @@ package generator
 // the update is generated field by field by the struct rule itself (no rule lookup: an update never degenerates into
 // `target = source`), into the struct the update argument points to
 //@   at@C10 call s.Assign#1 assert arg1 == ctx && arg2 == assignTo && arg3 == sourceID && arg5 == target.PointerInner && (old(source.Struct) ==> arg4 == old(source))
+
+// ---- C01/C18: the per-format skeleton: exactly the declared API is emitted ----
+// struct format: `type <Name> struct{}` and one method on *<Name> per definition; variables format: the user's
+// own function variables (they live in the package that DECLARES them) are assigned in init(), helpers are plain
+// functions; function format: one plain function per definition. Every definition is emitted exactly once.
+//@ func generator.appendGenerated
+//@   props C01 C18
+// (the format is one of the three values output:format accepts; validated by parse.Enum in parseConverterLine)
+//@   requires g.conf.OutputFormat == config.FormatStruct || g.conf.OutputFormat == config.FormatVariable || g.conf.OutputFormat == config.FormatFunction
+//@   loop 2 invariant len(funcs) + len(init) == idx
+//@   at@C01 call append#1 assert g.conf.OutputFormat == config.FormatStruct
+//@           && arg1 == jen.Code(jen.Func().Params(jen.Id(xtype.ThisVar).Op("*").Id(g.conf.Name)).Id(def.Name).Add(def.Jen))
+//@   at@C01 call append#2 assert g.conf.OutputFormat == config.FormatVariable && def.Explicit
+//@           && arg1 == jen.Code(jen.Qual(def.Package, def.Name).Op("=").Func().Add(def.Jen))
+//@   at@C01 call append#3 assert g.conf.OutputFormat == config.FormatVariable && !def.Explicit
+//@           && arg1 == jen.Code(jen.Func().Id(def.Name).Add(def.Jen))
+//@   at@C01 call append#4 assert g.conf.OutputFormat == config.FormatFunction
+//@           && arg1 == jen.Code(jen.Func().Id(def.Name).Add(def.Jen))
